@@ -159,6 +159,49 @@ func TestGocvBoundedC10(t *testing.T) {
 			if lvl >= 0 && !thorough && lvl != 1 {
 				continue // quick: tamper the in-memory trie and one committed form
 			}
+			// verifiers that already hold a root (one that has verified an honest proof of this trie, one
+			// built from the trusted root): the hash returned must still be derived from the proof at hand
+			if len(hs) > 0 {
+				twin := New(nil, &c10Store{m: map[string][]byte{}})
+				for _, kv := range kvs {
+					if err := twin.Update(kv.key, []byte("evil-"+kv.value), kv.weight); err != nil {
+						t.Fatal(err)
+					}
+				}
+				twinRoot := append([]byte{}, twin.Root()...)
+				verifiers := []struct {
+					name string
+					mk   func() *WeightedMerkleTrie
+				}{
+					{"a verifier that has already verified an honest proof of this trie", func() *WeightedMerkleTrie {
+						v := New(nil, &c10Store{m: map[string][]byte{}})
+						_, _, _ = v.VerifyBlockProof(hs[0].block, hs[0].proof)
+						return v
+					}},
+					{"a verifier built from the trusted root", func() *WeightedMerkleTrie {
+						return New(&hashNode{hash: append([]byte{}, root...), weight: total}, &c10Store{m: map[string][]byte{}})
+					}},
+				}
+				for _, hp := range hs {
+					_, tproof, err := twin.GetBlockProof(hp.block)
+					if err != nil {
+						continue
+					}
+					for _, vf := range verifiers {
+						cases++
+						h, v, err := vf.mk().VerifyBlockProof(hp.block, tproof)
+						if err == nil && bytes.Equal(h, root) && string(v) != owner(hp.block).value {
+							fail("verifier-with-a-root", "%s: on %s, the proof of block %d taken from another trie (same keys and weights, other values) verifies with the trusted root and value %q; the true owner's value is %q", desc, vf.name, hp.block, v, owner(hp.block).value)
+						} else if err != nil || !bytes.Equal(h, twinRoot) {
+							fail("verifier-with-a-root", "%s: on %s, an honest proof of another trie for block %d gives (%x, %v), want that trie's root %x", desc, vf.name, hp.block, h, err, twinRoot)
+						}
+						h, v, err = vf.mk().VerifyBlockProof(hp.block, hp.proof)
+						if err != nil || !bytes.Equal(h, root) || string(v) != owner(hp.block).value {
+							fail("verifier-with-a-root", "%s: on %s, the honest proof for block %d gives (%x, %q, %v), want root %x and value %q", desc, vf.name, hp.block, h, v, err, root, owner(hp.block).value)
+						}
+					}
+				}
+			}
 			// try: verify a tampered pair list for every block number; report a forgery
 			try := func(class string, from honest, pairs [][]byte, what string) {
 				cases++
@@ -309,6 +352,17 @@ func TestGocvBoundedC10(t *testing.T) {
 					dup := append(append(append([][]byte{}, hp.pairs[:pi+1]...), raw), hp.pairs[pi+1:]...)
 					try("duplicate-pair", hp, dup, fmt.Sprintf("proof element %d duplicated", pi))
 					try("truncate", hp, hp.pairs[:pi], fmt.Sprintf("proof truncated to %d elements", pi))
+					if pi == len(hp.pairs)-1 {
+						// elements appended behind a complete honest proof: a forged value node, and the leaf of another block's proof
+						fv := PersistNodeBase{Value: &PersistNodeValue{Value: []byte("mallory"), Weight: total}}
+						fr, _ := cbor.Marshal(&fv)
+						try("append-pair", hp, append(append([][]byte{}, hp.pairs...), fr), "a forged value node appended behind the honest proof")
+						for _, other := range hs {
+							if other.block != hp.block && len(other.pairs) > 0 {
+								try("append-pair", hp, append(append([][]byte{}, hp.pairs...), other.pairs[len(other.pairs)-1]), fmt.Sprintf("the leaf of the proof of block %d appended behind the honest proof", other.block))
+							}
+						}
+					}
 					// bit flips
 					step := 1
 					if !thorough {
@@ -336,7 +390,7 @@ func TestGocvBoundedC10(t *testing.T) {
 		classes = append(classes, fmt.Sprintf("%s=%d", c, n))
 	}
 	sort.Strings(classes)
-	fmt.Printf("GOCV-BOUNDED cases=%d failures=%d scope=\"6 contents (branch, single-entry and shared-prefix roots) x {in memory, committed at collapse 0/1/2}: honest proofs for every block; tampered proofs (reweight on/off path, reweight short, replaced leaf value, swap, substitute, drop, duplicate, truncate, bit flips) verified for every block number; failing classes: %v\"\n", cases, total, classes)
+	fmt.Printf("GOCV-BOUNDED cases=%d failures=%d scope=\"6 contents (branch, single-entry and shared-prefix roots) x {in memory, committed at collapse 0/1/2}: honest proofs for every block, also on verifiers that already hold a root (reused, or built from the trusted root) together with honest proofs of a twin trie with other values; tampered proofs (reweight on/off path, reweight short, replaced leaf value, swap, substitute, drop, duplicate, truncate, append, bit flips) verified for every block number; failing classes: %v\"\n", cases, total, classes)
 	if total > 0 {
 		t.Fail()
 	}
